@@ -3,6 +3,7 @@ package errors
 import (
 	goerrors "errors"
 	"fmt"
+	"math"
 	"net/url"
 	"os/exec"
 	"strconv"
@@ -417,6 +418,11 @@ func NewRetriableLaterError(err error, header string) error {
 
 	secs, parseErr := strconv.Atoi(header)
 	if parseErr == nil {
+		// Keep the multiplication below from overflowing time.Duration,
+		// which would place the retry time in the past.
+		if maxSecs := int(math.MaxInt64 / int64(time.Second)); secs > maxSecs {
+			secs = maxSecs
+		}
 		return retriableLaterError{
 			wrappedError:  newWrappedError(err, ""),
 			timeAvailable: time.Now().Add(time.Duration(secs) * time.Second),
